@@ -432,8 +432,14 @@ func genLife(r *rand.Rand) lifeInput {
 	// end: close every handle (the last close of an on-disk bucket shuts the store down) or delete
 	if r.Intn(2) == 0 {
 		if h := anyOpen(); h >= 0 {
-			if r.Intn(3) == 0 {
+			switch r.Intn(4) {
+			case 0:
 				h = r.Intn(nh)
+			case 1:
+				// close a handle, then delete the bucket through that same, closed handle - while other handles
+				// may still be open and feeds running
+				add(lifeOp{Kind: "close", H: h})
+				open[h] = false
 			}
 			add(lifeOp{Kind: "cad", H: h})
 		}
